@@ -180,7 +180,7 @@ func pkcs5Padding(ciphertext []byte, blockSize int) []byte {
 func pkcs5Unpadding(src []byte, blockSize int) ([]byte, error) {
 	length := len(src)
 	unpadding := int(src[length-1])
-	if unpadding >= length || unpadding > blockSize {
+	if unpadding > length || unpadding > blockSize {
 		return nil, ErrPaddingSize
 	}
 
